@@ -49,3 +49,34 @@ Lemma tables_masks k : In k trs ->
     (negb (Z.eqb (Z.land (Z.shiftl 1 k) t_tgt_mask) 0) = (Z.eqb k 1 || Z.eqb k 2)) /\
     t_backwards = t_tgt_mask /\ t_all_ops = 15.
 Proof. revert k. apply in4_cases; vm_compute; auto. Qed.
+
+(* ---- ranges ---- *)
+Lemma land_range_b : forallb (fun a => forallb (fun b => existsb (Z.eqb (Z.land a b)) caps16) caps16) caps16 = true.
+Proof. vm_compute. reflexivity. Qed.
+
+Lemma in16_range c : In c caps16 -> 0 <= c < 16.
+Proof. unfold caps16. simpl. intros H. repeat (destruct H as [<-|H]; [lia|]). contradiction. Qed.
+
+Lemma land_range a b : 0 <= a < 16 -> 0 <= b < 16 -> 0 <= Z.land a b < 16.
+Proof.
+  intros Ha Hb. pose proof land_range_b as H. rewrite forallb_forall in H.
+  specialize (H a (range16 a Ha)). rewrite forallb_forall in H. specialize (H b (range16 b Hb)).
+  apply existsb_exists in H as [c [Hc E]]. apply Z.eqb_eq in E. rewrite E. apply in16_range. exact Hc.
+Qed.
+
+Lemma capTable_range_b : forallb (fun t => forallb (fun c => existsb (Z.eqb (capTable t c)) caps16) caps16) trs = true.
+Proof. vm_compute. reflexivity. Qed.
+
+Lemma capTable_range t c : In t trs -> 0 <= c < 16 -> 0 <= capTable t c < 16.
+Proof.
+  intros Ht Hc. pose proof capTable_range_b as H. rewrite forallb_forall in H.
+  specialize (H t Ht). rewrite forallb_forall in H. specialize (H c (range16 c Hc)).
+  apply existsb_exists in H as [c' [Hc' E]]. apply Z.eqb_eq in E. rewrite E. apply in16_range. exact Hc'.
+Qed.
+
+Lemma testbit_all_ops k : In k trs -> Z.testbit t_all_ops k = true.
+Proof. revert k. apply in4_cases; reflexivity. Qed.
+
+Lemma testbit_fwd_adj k : In k trs ->
+  Z.testbit (Z.lor t_TIMES t_ADJOINT_TIMES) k = (Z.eqb k 0 || Z.eqb k 1)%bool.
+Proof. revert k. apply in4_cases; reflexivity. Qed.
